@@ -112,10 +112,16 @@ var templates = map[string]ctxTemplate{
 	"outer_array":  {Body: "a := [2]$T{$MK0, $MK1}\nb := a\n$MUT\n$OUT", SrcLv: "a[1]", DstLv: "b[1]"},
 	"outer_assign": {Body: "w := $W{f: $MK0, g: 1}\nv := $W{f: $MKB, g: 2}\nv = w\n$MUT\n$OUT", SrcLv: "w.f", DstLv: "v.f"},
 
-	"swap":         {Body: "x := $MK0\ny := $MKB\nx, y = y, x\n$MUT\n$OUT", SrcLv: "x", DstLv: "y"},
-	"result_tuple": {Body: "x := $MK0\ny, n := func() ($T, int32) { return x, 1 }()\n_ = n\n$MUT\n$OUT", SrcLv: "x", DstLv: "y"},
-	"convert":      {Body: "x := $MK0\ny := C$N(x)\n$MUT\n$OUT", SrcLv: "x", DstLv: "y", DstRd: "$T(y)"},
-	"ptr_to_ptr":   {Body: "x := $MK0\nt := $MKB\np := &t\nq := &x\n*p = *q\n$MUT\n$OUT", SrcLv: "x", DstLv: "(*p)"},
+	"swap":                {Body: "x := $MK0\ny := $MKB\nx, y = y, x\n$MUT\n$OUT", SrcLv: "x", DstLv: "y"},
+	"result_tuple":        {Body: "x := $MK0\ny, n := func() ($T, int32) { return x, 1 }()\n_ = n\n$MUT\n$OUT", SrcLv: "x", DstLv: "y"},
+	"convert":             {Body: "x := $MK0\ny := C$N(x)\n$MUT\n$OUT", SrcLv: "x", DstLv: "y", DstRd: "$T(y)"},
+	"convert_same":        {Body: "x := $MK0\ny := $T(x)\n$MUT\n$OUT", SrcLv: "x", DstLv: "y"},
+	"convert_same_var":    {Body: "x := $MK0\nvar y = $T(x)\n$MUT\n$OUT", SrcLv: "x", DstLv: "y"},
+	"convert_same_paren":  {Body: "x := $MK0\ny := (($T)(x))\n$MUT\n$OUT", SrcLv: "x", DstLv: "y"},
+	"convert_same_assign": {Body: "x := $MK0\ny := $MKB\ny = $T(x)\n$MUT\n$OUT", SrcLv: "x", DstLv: "y"},
+	"convert_same_arg":    {Body: "x := $MK0\nfunc(y $T) {\n$MUT\n$OUT\n}($T(x))", SrcLv: "x", DstLv: "y"},
+	"convert_same_field":  {Body: "x := $MK0\nw := $W{f: $T(x)}\n$MUT\n$OUT", SrcLv: "x", DstLv: "w.f"},
+	"ptr_to_ptr":          {Body: "x := $MK0\nt := $MKB\np := &t\nq := &x\n*p = *q\n$MUT\n$OUT", SrcLv: "x", DstLv: "(*p)"},
 
 	// ---- aliasing contexts
 	"addr":               {Body: "x := $MK0\np := &x\n$MUT\n$OUT", SrcLv: "x", DstLv: "(*p)", PtrEq: "p == &x"},
